@@ -1,25 +1,146 @@
-(* C19 - State is a deterministic function of history and survives export/import (PARTIAL, see the end of the file).
+(* C19 - State is a deterministic function of history and survives export/import.  PARTIAL (see C19_full below).
    Property theorems only; each is closed by a lemma from C19/*.v. *)
-From Coq Require Import ZArith List Bool Permutation Lia.
+From Coq Require Import ZArith String List Bool Permutation Lia.
 Import ListNotations.
-From Osmo Require Import C19.Perm.
+From Osmo Require Import C17.Model C19.Perm C19.Sites C19.SiteTypes Gen.C19_sites C19.Classify C19.Genesis.
 Open Scope Z_scope.
 
-(* a site that sorts the keys it ranged over before using them cannot leak the iteration order *)
+(* ------------------------------------------------------------------------------------------------------------
+   The full property, for an arbitrary node semantics: [exec sch n b] executes block b on node state n under the
+   runtime schedule / map-iteration seed / clock [sch] and yields the new state with the block's results and events.
+   (i) the outcome does not depend on sch; (ii) a node imported from another's export reports the same and, fed the
+   same history, produces the same results.
+   This is a definition, not a theorem: Go's scheduler, its randomised map iteration and the wall clock cannot be
+   exhibited by an executable Gallina model, and most modules are not modelled. What IS proved below:
+     - for the map-iteration sites of /repo (inventory regenerated from the sources on every run): the iteration order,
+       taken as an adversarial permutation, cannot change what the site computes (sorted keys / commuting bodies),
+       and every site of the inventory is covered ([C19_sites_classified]);
+     - for the modelled module states (x/epochs as in C17; a generic keyed-records + counter + derived-total module
+       standing for lockup / incentives / twap-like stores): the export/import round trip and the equality of all later
+       results ([C19_export_import_partial]).
+   Everything else (all other modules, ante/post handlers, IAVL commitment, goroutines, wall clock) is covered only by
+   the dynamic two-process / export-import correspondence of props/c19.py on the real application. *)
+Definition C19_full (Sched Node Block Out Genesis Obs : Type)
+    (exec : Sched -> Node -> Block -> Node * Out) (export : Node -> Genesis) (import : Genesis -> Node)
+    (obs : Node -> Obs) : Prop :=
+  (forall sch sch' n b, exec sch n b = exec sch' n b) /\
+  (forall sch n, obs (import (export n)) = obs n /\
+     forall bs, let run := fold_left (fun (acc : Node * list Out) b => let '(n', o) := exec sch (fst acc) b in (n', (snd acc ++ [o])%list)) bs in
+       snd (run (import (export n), [])) = snd (run (n, []))).
+
+(* ---------------- (a) map-iteration sites ---------------- *)
+
+(* a site that sorts the keys it ranged over before using them *)
 Theorem C19_sorted_site_perm_invariant : forall {A} (f : list Z -> A) o o',
   Permutation o o' -> f (isort o) = f (isort o').
 Proof. intros; now apply sorted_then_perm_invariant. Qed.
 Print Assumptions C19_sorted_site_perm_invariant.
 
-(* a site whose body commutes cannot leak the iteration order *)
+(* the scanner's collect_sorted class: filter / map the keys into a slice, sort it (forceTransfer, UpdateDistrRecords,
+   writeDurationValuesToAccumTree, UpdateMigrationRecords, InitializeAllSyntheticLocks, isSuperset, upgrade handlers) *)
+Theorem C19_collect_sorted_site_perm_invariant : forall p g o o',
+  Permutation o o' -> collect_sorted_site p g o = collect_sorted_site p g o'.
+Proof. exact collect_sorted_perm_invariant. Qed.
+Print Assumptions C19_collect_sorted_site_perm_invariant.
+
+(* a site whose body commutes *)
 Theorem C19_commutative_site_perm_invariant : forall {S K} (step : S -> K -> S),
   (forall s a b, step (step s a) b = step (step s b) a) ->
   forall o o', Permutation o o' -> forall s, fold_left step o s = fold_left step o' s.
 Proof. intros S K step C o o' H s; now apply fold_comm_perm. Qed.
 Print Assumptions C19_commutative_site_perm_invariant.
 
+(* incentives distributeSyntheticInternal: locks written at their own precomputed indices *)
+Theorem C19_site_distribute_synthetic : forall idx lock,
+  (forall a b, a <> b -> 0 <= idx a -> 0 <= idx b -> idx a <> idx b) ->
+  forall init o o', NoDup o -> Permutation o o' ->
+  distribute_synthetic_site idx lock init o = distribute_synthetic_site idx lock init o'.
+Proof. exact distribute_synthetic_perm_invariant. Qed.
+Print Assumptions C19_site_distribute_synthetic.
+
+(* incentives GetRewardsEst *)
+Theorem C19_site_rewards_est : forall gauges_of bad est o o',
+  Permutation o o' -> rewards_est_site gauges_of bad est o = rewards_est_site gauges_of bad est o'.
+Proof. exact rewards_est_perm_invariant. Qed.
+Print Assumptions C19_site_rewards_est.
+
+(* lockup RebuildSuperfluidAccumulationStoresForDenom, protorev UpdatePools (both loops): one store entry per pair of keys *)
+Theorem C19_site_keyed_writes : forall enc value,
+  (forall a b c d, enc a b = enc c d -> a = c /\ b = d) ->
+  forall s0 o o' oi oi', NoDup o -> (forall b, NoDup (oi b)) ->
+  Permutation o o' -> (forall b, Permutation (oi b) (oi' b)) ->
+  keyed_writes_site enc value s0 o oi = keyed_writes_site enc value s0 o' oi'.
+Proof. exact keyed_writes_perm_invariant. Qed.
+Print Assumptions C19_site_keyed_writes.
+
+(* smart-account checkForFloats, dag hasIncomingEdge *)
+Theorem C19_site_exists : forall p o o', Permutation o o' -> exists_site p o = exists_site p o'.
+Proof. exact exists_site_perm_invariant. Qed.
+Print Assumptions C19_site_exists.
+
+(* osmoutils DisjointArrays *)
+Theorem C19_site_disjoint_arrays : forall in1 in2 o1 o1' o2 o2',
+  Permutation o1 o1' -> Permutation o2 o2' ->
+  disjoint_arrays_site in1 in2 o1 o2 = disjoint_arrays_site in1 in2 o1' o2'.
+Proof. exact disjoint_arrays_perm_invariant. Qed.
+Print Assumptions C19_site_disjoint_arrays.
+
+(* totality: every site of the inventory generated from /repo is either discharged by the scanner's syntactic
+   criterion (Pure / CollectSorted) or has a hand-written table entry; and no table entry is stale *)
+Theorem C19_sites_classified :
+  scan_ok = true /\ forallb classified sites = true /\ stale = [] /\
+  (forall s, In s sites -> s_class s = Escaping ->
+     exists e, In e table /\ e_file e = s_file s /\ e_func e = s_func s /\ e_hash e = s_hash s).
+Proof.
+  split; [exact scan_succeeded|]. split; [exact all_sites_classified|]. split; [exact table_entries_exist|].
+  exact escaping_sites_have_entries.
+Qed.
+Print Assumptions C19_sites_classified.
+
+(* ---------------- (b) export / import ---------------- *)
+
+Theorem C19_export_import_partial :
+  (* x/epochs: the re-imported timers report the same apart from the start heights, and every later block calls the
+     same hooks with the same outcomes *)
+  (forall sc n h t s hst bs, ids_distinct s -> start_set s ->
+     exists s', import_epochs h t (export_epochs s) = Some s' /\
+       let a := run sc n (mkS s hst false) bs in let b := run sc n (mkS s' hst false) bs in
+       epochs_obs_eq (infos a) (infos b) /\ hs a = hs b /\ halted a = halted b) /\
+  (* keyed records + counter + rebuilt total: exact round trip after any history, same results for any continuation *)
+  (forall h1 h2, let s := fst (krun kinit h1) in
+     kimport (kexport s) = s /\ krun (kimport (kexport s)) h2 = krun s h2).
+Proof. split; [exact epochs_run_import_export|exact krun_import_export]. Qed.
+Print Assumptions C19_export_import_partial.
+
+(* the epochs round trip is not exact (finding F19-2): the start height is overwritten at import *)
+Theorem C19_epochs_roundtrip_exact_refuted :
+  exists h t s, ids_distinct s /\ start_set s /\ import_epochs h t (export_epochs s) <> Some s.
+Proof. exact epochs_import_export_exact_refuted. Qed.
+Print Assumptions C19_epochs_roundtrip_exact_refuted.
+
+(* ---------------- non-vacuity ---------------- *)
 Example C19_sorted_nonvacuous : Permutation [3; 1; 2] [2; 3; 1] /\ isort [3; 1; 2] = [1; 2; 3] /\ [3; 1; 2] <> [2; 3; 1].
 Proof.
   split; [|split; [reflexivity|discriminate]].
   apply NoDup_Permutation; [repeat constructor; cbn; intuition lia..|intros x; cbn; intuition].
 Qed.
+
+(* two different iteration orders of a three-key map through the keyed-writes site: same store *)
+Example C19_keyed_writes_nonvacuous :
+  let enc := fun a b => a * 1000 + b in
+  keyed_writes_site enc (fun a b => a + b) [] [2; 1] (fun b => if b =? 1 then [7; 5] else [9]) =
+  keyed_writes_site enc (fun a b => a + b) [] [1; 2] (fun b => if b =? 1 then [5; 7] else [9]) /\
+  keyed_writes_site enc (fun a b => a + b) [] [2; 1] (fun b => if b =? 1 then [7; 5] else [9]) = [(1005, 6); (1007, 8); (2009, 11)].
+Proof. split; vm_compute; reflexivity. Qed.
+
+(* export after a history with creates, an update and a delete; the continuation allocates the same ids *)
+Example C19_keyed_module_nonvacuous :
+  let s := fst (krun kinit [KCreate 5; KCreate 7; KUpdate 1 6; KCreate 1; KDelete 2]) in
+  s = mkK [(1, 6); (3, 1)] 3 7 /\ kimport (kexport s) = s /\
+  snd (krun (kimport (kexport s)) [KCreate 4; KDelete 2]) = [KOk 4; KErr].
+Proof. repeat split; vm_compute; reflexivity. Qed.
+
+Example C19_epochs_nonvacuous :
+  import_epochs 21 1000 (export_epochs [mkE 1 100 10 3 120 true 12; mkE 2 100 70 1 100 true 1]) =
+    Some [mkE 1 100 10 3 120 true 21; mkE 2 100 70 1 100 true 21].
+Proof. vm_compute; reflexivity. Qed.
